@@ -51,5 +51,14 @@ def adjFactor (t : Nat) (nodes : List Nat) (edges : List Edge) : List (Nat × α
     let v := entryD A (encode cls a) (encode cls b)
     if v = 0 then 0 else powN v t).sum)
 
+/-- hyperedge list of the DUAL hypergraph in index form: one hyperedge per node (row `i` of the incidence matrix, i.e. the
+`i`-th label of the encoder) holding the indices of the hyperedges that contain it -/
+def dualHyes (nodes : List Nat) (edges : List Edge) : List (List Nat) :=
+  (classes nodes).map fun a => (List.range edges.length).filter fun j => (edges.getD j []).contains a
+
+/-- `hye_list_to_binary_incidence(dual hyperedges, shape=(E, N))` : the incidence matrix of the dual hypergraph -/
+def dualInc (nodes : List Nat) (edges : List Edge) : Option (List (List α)) :=
+  hyeBinInc (dualHyes nodes edges) (some (edges.length, nodes.length))
+
 end
 end C09
